@@ -19,7 +19,7 @@ BUILTIN_EXC = {
     "OverflowError": "ArithmeticError", "ZeroDivisionError": "ArithmeticError",
     "AssertionError": "Exception", "AttributeError": "Exception", "EOFError": "Exception",
     "LookupError": "Exception", "IndexError": "LookupError", "KeyError": "LookupError",
-    "NameError": "Exception", "OSError": "Exception", "socket.error": "Exception",
+    "NameError": "Exception", "UnboundLocalError": "NameError", "OSError": "Exception", "socket.error": "Exception",
     "RuntimeError": "Exception", "NotImplementedError": "RuntimeError", "RecursionError": "RuntimeError",
     "TypeError": "Exception", "ValueError": "Exception", "UnicodeError": "ValueError",
     "UnicodeDecodeError": "UnicodeError", "UnicodeEncodeError": "UnicodeError",
@@ -165,6 +165,16 @@ class ExprMixin:
     def ev_Name(self, st, e, k):
         if e.id in st.locals:
             return k(st, st.locals[e.id])
+        fr = st.frame
+        if fr is not None and fr.func is not None:
+            loc = getattr(fr.func, "_assigned", None)
+            if loc is None:
+                from .stmt import assigned_names
+                loc = assigned_names(fr.func.node.body) | {a.arg for a in fr.func.node.args.args}
+                fr.func._assigned = loc
+            if e.id in loc:
+                # a local of this function that is not bound on this path
+                return self.raise_(st, "UnboundLocalError", f"{e.id} at line {e.lineno}")
         r = self.resolve_global(e.id)
         if r is None:
             raise Unsupported(f"name {e.id!r} is unbound in {self.cur_module}")
@@ -297,7 +307,8 @@ class ExprMixin:
         return outs
 
     def inject_interference(self, st: State, obj: VRef, owner: str, field: str, force=False) -> State:
-        spec = self.reg.interference[(owner, field)]
+        spec = dict(self.reg.interference[(owner, field)])
+        spec.update(getattr(self, "interference_kinds", {}).get((owner, field), {}))
         lock = self.read_field(st, obj, spec["lock"])
         if lock.t.s in st.held and not force:
             return st
